@@ -625,6 +625,9 @@ func (m *refModel) evalRule(r *Rule, phase int) {
 	case "allow:request":
 		if on {
 			m.allow = "request"
+			if phase > 2 {
+				m.mark("allow-request-raised-after-request-phases")
+			}
 		}
 	}
 	if r.Skip > 0 {
